@@ -3,6 +3,9 @@
 package main
 
 import (
+	"fmt"
+	"sort"
+	"strings"
 	"sync"
 	"unicode/utf8"
 
@@ -13,6 +16,8 @@ import (
 	"golang.org/x/text/encoding/simplifiedchinese"
 	"golang.org/x/text/encoding/traditionalchinese"
 	"golang.org/x/text/encoding/unicode"
+
+	"github.com/makiuchi-d/gozxing"
 
 	"verifharness/fw"
 )
@@ -191,4 +196,21 @@ func csRandomText(rng *fw.Rand, e *csEntry, n int) string {
 		rs[i] = csRandomRune(rng, e)
 	}
 	return string(rs)
+}
+
+// hintsSnapshot renders a hint map with the dynamic TYPE of every value next to the value, keys in
+// order: a writer that replaces "4" by 4 or "L" by the typed level has changed the caller's map
+// although both print alike.
+func hintsSnapshot(h map[gozxing.EncodeHintType]interface{}) string {
+	keys := make([]int, 0, len(h))
+	for k := range h {
+		keys = append(keys, int(k))
+	}
+	sort.Ints(keys)
+	var sb strings.Builder
+	for _, k := range keys {
+		v := h[gozxing.EncodeHintType(k)]
+		fmt.Fprintf(&sb, "%d=(%T)%v;", k, v, v)
+	}
+	return sb.String()
 }
